@@ -18,7 +18,13 @@ use quote::ToTokens;
 use std::path::Path;
 use syn::visit::Visit;
 
-pub const TARGETS: &[Target] = &[("c12bounds", "C12Bounds", c12bounds as Gen)];
+#[path = "c12_sharing.rs"]
+mod sharing;
+
+pub const TARGETS: &[Target] = &[
+    ("c12bounds", "C12Bounds", c12bounds as Gen),
+    ("c12sharing", "C12Sharing", sharing::c12sharing as Gen),
+];
 
 fn bound_name(s: &str) -> &'static str {
     match s.replace(' ', "").as_str() {
